@@ -10,6 +10,9 @@ var verifHarnesses = map[string]func(){
 func VerifC02Accept() {
 	n := verifParam("N", 3)
 	sc, kinds := verifTokens(n)
+	verifCurScan = sc
+	verifTrace = nil
+	verifFailAt = -1
 	d := verifCYK(kinds)
 	sentence := d[0][0][n] == 1
 	p := NewParser()
